@@ -801,6 +801,9 @@ func runC20(tier string, seed int64, outdir string, replay string) error {
 	defer env.close()
 
 	addHist := func(class string, email string, cas []int, choose c20Chooser, feats map[string]any) error {
+		if feats == nil {
+			feats = map[string]any{}
+		}
 		r, fin, err := runC20Hist(env, email, cas, choose, 600)
 		if err != nil {
 			if r != nil && strings.HasPrefix(err.Error(), "PANIC") {
